@@ -195,7 +195,7 @@ def jobs(tier):
     js = []
     for k in ((1, 2, 3) if tier == 'quick' else (1, 2, 3, 4)):
         for pat in itertools.product((0, 1), repeat=k):
-            js.append((h_record_endrecord, (k, pat), 600))
+            js.append((h_record_endrecord, (k, pat), 1800))
     return js
 
 
@@ -376,4 +376,4 @@ _jobs_records = jobs
 
 
 def jobs(tier):
-    return _jobs_records(tier) + [(h_list_endlist, (), 600), (h_option_step, ('null',), 600), (h_option_step, ('integer',), 600)]
+    return _jobs_records(tier) + [(h_list_endlist, (), 1800), (h_option_step, ('null',), 600), (h_option_step, ('integer',), 600)]
